@@ -6,6 +6,96 @@ VERIF = os.path.dirname(os.path.dirname(os.path.abspath(__file__)))
 
 # id -> (engine, category, technique, level text, level note, design ref)
 CHECKS = {
+ "C01": ("E-LOCKSTEP", "model_checking",
+         "bounded-exhaustive lock-step enumeration of word / byte sequences on the real Generator against a declarative CTPH reference (every prefix compared)",
+         "Every sequence of the stated families (all sequences <=3 over a 36-symbol trigger-word alphabet from fresh and zero-prefix starts; run-structured two / three segment sequences with every count 1..66; all byte strings over {00,01,FF} to length 9/11; every constant byte and short pattern at every length) is fed through rotating update forms and additionally as ONE slice and through hash_buf; all three finalizations are compared with the reference after every step.  Reaches block index 30, bhidx_start 30, the fork limit and the last-piece hash.",
+         "Trusted: refmodel::ctph (no fork / elimination / hint; bound to 472 libfuzzy vectors + 2 multi-GiB libfuzzy vectors on every run); hook H1 for zero-prefix starts (validated at start-up).  Inputs outside the families are not covered.",
+         "DESIGN.md §4 C01"),
+ "C02": ("E-ENUM", "model_checking",
+         "bounded-exhaustive enumeration of hash pairs through up to 19 comparison entry points against the ssdeep score formula (DP edit distance + naive 7-gram scan)",
+         "All 31x31 block-size pairs x 24 content templates, and every single edit (strided double edits) of base strings of length {7,8,31,32,33,63,64} under all three block-size relations and logs {0..5,29,30}, each through the string function (raw / normalized / mixed spellings), hash-to-hash compare, and the reusable target initialised from short / long / dual operands (dirty and fresh), plus compare_near_eq / compare_unequal* when their preconditions hold.",
+         "Trusted: refmodel::score (textbook DP, naive scan, formula, cap; bound to the README scores 46 and 88).  Pairs outside the families are not covered.",
+         "DESIGN.md §4 C02"),
+ "C03": ("E-STATE", "model_checking",
+         "explicit-state search (stateright BFS) over (position, real Generator) under all chunked update calls; closed per byte string; deviation-bounded for long strings; scripted-reader enumeration for hash_stream",
+         "For each byte string X every history of update / update_by_iter / += / update_by_byte calls over the chunk menu is covered (closure regime: any number of calls), with the observables compared with the reference in every state and finalization required to leave the state unchanged; longer strings with <= 2 (thorough 3) chunked calls among single-byte calls; hash_stream under every pattern of <= 2 short reads.",
+         "Trusted: refmodel::ctph; the Generator's derive(Debug) rendering is complete (state key, 128-bit hash of it).  Per-X result: other byte strings are covered only by the chosen X set.",
+         "DESIGN.md §4 C03"),
+ "C04": ("E-ENUM", "model_checking",
+         "bounded-exhaustive enumeration of texts with 0 / 1 / 2 byte-level deviations through every parse entry point of all six types, default and strict parser builds, against a left-to-right scanner",
+         "1.45 M distinct texts (grammar products + every single-byte insert / replace / delete / truncate of strided seeds; pairs of edits in thorough) x 6 types x 4 entry points: no panic, accept <=> grammar, decoded content, end index, index untouched on error, error origin, admissible kind.",
+         "Trusted: refmodel::text::parse (60 lines).  The error kind is only required to be one of the conditions the offending field exhibits; offsets are hints.",
+         "DESIGN.md §4 C04"),
+ "C05": ("E-ENUM", "model_checking",
+         "bounded-exhaustive enumeration of hash objects x buffer lengths and of accepted texts against a reference formatter",
+         "Every object of the corpus HASH(T) of the four plain types: to_string / Display / String::from / store_into_bytes agree with the reference; buffers of every length 0..max+8 (strided subset + near-capacity objects; border lengths for the rest): too small => Err and buffer untouched; round trip; every accepted C04 text re-formats to itself (raw types) or its run-collapsed form.",
+         "Trusted: refmodel::text::format, refmodel::normalize.",
+         "DESIGN.md §4 C05"),
+ "C06": ("E-ENUM", "model_checking",
+         "bounded-exhaustive enumeration of raw hashes through eight normalization routes against run collapsing",
+         "Runs of every length 1..64 at every position, adjacent runs, runs touching both ends: normalize / normalize_in_place / clone_normalized / From / from_raw_form / parse into the normalizing type / normalized part of a dual built from the object and from text all give the valid object full_eq the reference; idempotence; is_normalized <=> unchanged.",
+         "Trusted: refmodel::normalize (10 lines).",
+         "DESIGN.md §4 C06"),
+ "C07": ("E-ENUM", "model_checking",
+         "bounded-exhaustive enumeration of raw hashes through six dual-construction routes (incl. dirty objects) and all pairs of a shared-normal-form corpus",
+         "Every raw hash of HASH (0..16 RLE symbols per block hash): the routes are ==, hash / order as equal, render identically, are valid, decompress (fresh and dirty destinations, text) to exactly the raw hash, expose its normalization; normalize_in_place gives the dual of the normalized hash; all pairs: a == b <=> raw equal.",
+         "Trusted: refmodel::normalize, the raw hash itself as oracle.",
+         "DESIGN.md §4 C07"),
+ "C08": ("E-ENUM", "model_checking",
+         "exhaustive enumeration of all string pairs over small alphabets up to a length bound plus structured full-length families against a textbook DP",
+         "ALL ordered pairs over alphabets of size 2 / 3 / 4 to length 11 / 8 / 5 (thorough 12 / 9 / 6) and two-run, periodic, shifted, truncated and single-edit families at length up to 64 (carry chains through bit 63), both argument orders, through the position array and the comparison-target accessors.",
+         "Trusted: refmodel::lcs_distance.  Unstructured long strings over large alphabets are outside the claim.",
+         "DESIGN.md §4 C08"),
+ "C09": ("E-ENUM", "model_checking",
+         "exhaustive enumeration of all string pairs over small alphabets plus a shared window planted at every pair of offsets, against a naive scan",
+         "ALL ordered pairs over alphabet 2 (|a|<=10,|b|<=12) and 3 (7/8); a 5..8-symbol window planted at every (offset in a, offset in b) for all lengths <= 64 (12.1 M cases); low-entropy all-pairs; a strided subset through FuzzyHashCompareTarget and is_comparison_candidate at all three size relations.",
+         "Trusted: refmodel::has_common_7gram.",
+         "DESIGN.md §4 C09"),
+ "C10": ("E-ENUM", "model_checking",
+         "bounded-exhaustive enumeration of all pairs of a normalized-hash corpus and all 31x31 size combinations for the score laws and the window pre-filter",
+         "All ordered pairs: range, symmetry, 100 on itself, 0 when far, non-zero <=> equal or candidate, candidate <=> index-window sets intersect <=> reference tagged 7-gram sets intersect; every window iterator against the base-64 definition incl. effective index 31.",
+         "Trusted: refmodel::numeric_window and the set intersection.",
+         "DESIGN.md §4 C10"),
+ "C11": ("E-STATE", "model_checking",
+         "explicit-state search (stateright BFS) over a register file of real objects under ~130 safe operations, depth-bounded, plus a depth-1 sweep of the full constructor menu",
+         "All operation sequences up to depth 3 (thorough 4) over parse / construct (in- and out-of-contract) / normalize / convert into previously used destinations / dual init and expand / target and position-array init / generator results; every register must be valid by the library's check and by the reference predicate in every state; out-of-contract constructor calls may panic but never leave an invalid object.",
+         "Trusted: refmodel::plain_valid.  Depth-bounded (not closed); release and debug-assertion builds.",
+         "DESIGN.md §4 C11"),
+ "C12": ("E-STATE", "model_checking",
+         "explicit-state search (stateright BFS) over (real Generator, reference, declared size) under declare / feed / in-place zero skip / reset",
+         "All histories mixing 7 declared sizes (u64 and usize forms), chunked feeding of 6 scripts (incl. 96 GiB+1 last-piece-hash and exactly-192-GiB scripts), finalizations in every state and resets (1; thorough 2) followed by any script; declared-size model and fresh-after-reset differential checked in every state.",
+         "Trusted: refmodel::ctph, hook H1 (in-place zero skip; validated).",
+         "DESIGN.md §4 C12"),
+ "C13": ("E-LOCKSTEP", "model_checking",
+         "bounded-exhaustive enumeration of all 31 size borders x deltas x trigger suffixes x forms x hint x fresh / reused generator from hook(N) starts",
+         "Every border 192*2^n + {-2..2} reached exactly, with every trigger level k and piece counts around 32 / 64, piece-poor tails, pieces-zero gap-pieces histories, on fresh and reused generators, with and without the correct hint; exact limit accepted, above rejected; warning for every size 0..8200.",
+         "Trusted: refmodel::ctph; hook H1 validated against really feeding zeros (exhaustively to 4096 / 65536, around borders to 1.5 MiB / 3 GiB, inductively to 192 GiB).",
+         "DESIGN.md §4 C13"),
+ "C14": ("E-CONFIG", "model_checking",
+         "exhaustive configuration matrix: the same enumerated transcript in 7 feature sets x 2 debug-assertion settings, digests compared, strict-parser rule checked line by line",
+         "Each of the 14 builds produces ~60 k transcript lines (generator incl. one-slice feeding and reused generators, 6 k parser texts x 6 types, conversions, scores for all 31x31 sizes, primitives), checks itself against the reference, and must be byte-identical to default/da-off except for the documented strict-parser differences; unchecked twins and easy functions are cross-checked where present.",
+         "Trusted: refmodel; same compiler for all configurations; the transcript corpus is a bounded family.",
+         "DESIGN.md §4 C14"),
+ "C15": ("E-STATE", "model_checking",
+         "explicit-state search over the conversion graph per seed hash (own BFS; stateright cross-check); closed space per seed",
+         "Per seed (strided HASH corpus + narrowing-border seeds) the space (variant, object, normalizing-step-taken) closes at <= 10 states under 44 conversion edges x 3 destination dirt states, so chains of any length are covered; every state must be valid and full_eq the direct conversion; narrowing fails exactly when block hash 2 > 32 and leaves the destination untouched.",
+         "Trusted: refmodel::normalize; constructors new_from_internals_near_raw as the direct conversion.",
+         "DESIGN.md §4 C15"),
+ "C16": ("E-ENUM", "model_checking",
+         "exhaustive enumeration of all pairs and all triples of a per-type corpus against the documented order",
+         "All ordered pairs (== <=> equal text, Hash stream, antisymmetry, Equal <=> ==, operators, documented order; dual rule) and all triples (transitivity) of corpora built around trailing-'A', prefix and first-difference cases for all six types; sorting two permutations.",
+         "Trusted: refmodel::order (lexicographic slice comparison).",
+         "DESIGN.md §4 C16"),
+ "C17": ("E-STATE", "model_checking",
+         "explicit-state search (stateright BFS + cross-check BFS) over the real FuzzyHashCompareTarget / position array under re-initialisation; closed space",
+         "The target space closes at |H|+1 states under init_from of every corpus hash in five operand forms, so re-initialisation sequences of any length are covered; in every state the target is valid, full_eq a fresh one, equivalent to the last hash only and answers compare / candidate like the fresh one for every corpus hash; position array histories to depth 3 (4).",
+         "Trusted: a fresh object as oracle; refmodel for the position-array answers.",
+         "DESIGN.md §4 C17"),
+ "C18": ("E-FAULT", "fault_enumeration",
+         "enumeration of all reader answer scripts with <= 2 deviations (short reads, 6 error kinds) x payload sizes x read policies; real-file cases",
+         "11 k executions: a failing read is returned as that I/O error and no hash; without a failure the reader must be drained to end of stream and the hash is that of the delivered bytes; declared sizes through hook H2; procfs / directory / missing / /dev/null files.",
+         "Trusted: refmodel::ctph; hook H2 (pub forwarder).  The oracle is independent of the implementation's buffer size.",
+         "DESIGN.md §4 C18"),
  "C19": ("E-STATE", "model_checking",
          "explicit-state BFS over the real RollingHash / PartialFNVHash objects (stateright + cross-check BFS); closed state spaces",
          "Every history of update calls over the alphabet, of any length, is covered because the reachable state space of the real objects closes (FNV: 64 states under all 256 bytes; rolling hash: 7*|S|^7 states over the tier's alphabet); value() is compared with the definition in every state and all six update forms must agree on every transition.",
